@@ -230,7 +230,8 @@ func c07AttBody(nWork int) explore.Body {
 func c07Crafted() *model.Content {
 	a3 := &ref.Attachment{LogTime: 1, CreateTime: 2, Name: "n", MediaType: "abc", Data: []byte("0123456789abc")}
 	a4 := &ref.Attachment{LogTime: 3, CreateTime: 4, Name: "nn", MediaType: "abc", Data: []byte("wxyz")}
-	return model.Fixed(model.Headers[0], model.Chn(model.C0), model.Msg(0, 1, 3, 0), model.Att(a3), model.Msg(0, 2, 3, 0), model.Att(a4), model.Msg(0, 3, 3, 0))
+	a5 := &ref.Attachment{LogTime: 5, CreateTime: 6, Name: "empty", MediaType: "m", Data: nil}
+	return model.Fixed(model.Headers[0], model.Chn(model.C0), model.Msg(0, 1, 3, 0), model.Att(a3), model.Msg(0, 2, 3, 0), model.Att(a4), model.Msg(0, 3, 3, 0), model.Att(a5))
 }
 
 func c07Att(x *explore.Ctx, nWork int) *explore.Verdict {
@@ -255,7 +256,19 @@ func c07Att(x *explore.Ctx, nWork int) *explore.Verdict {
 	x.Note = func() any { return map[string]any{"config": f.cfg.String(), "fault": desc} }
 	x.State = explore.Hash(b)
 	orig := truthOf(f, rkLexerValidate, true)
-	lr := gow.Lex(bytes.NewReader(b), gow.LexOpts{Validate: true, AttCRC: true, Limit: len(orig.toks) + 8})
+	for _, parsedFirst := range []bool{false, true} {
+		if v := c07AttOne(x, f, b, ai, desc, ctxs, orig, parsedFirst); v != nil {
+			return v
+		}
+	}
+	return nil
+}
+
+func c07AttOne(x *explore.Ctx, f *rfFile, b []byte, ai int, desc, ctxs string, orig *readOutcome, parsedFirst bool) *explore.Verdict {
+	if parsedFirst {
+		ctxs += " — stored CRC requested before the computed one"
+	}
+	lr := gow.Lex(bytes.NewReader(b), gow.LexOpts{Validate: true, AttCRC: true, ParsedCRCFirst: parsedFirst, Limit: len(orig.toks) + 8})
 	if lr.Panic != "" {
 		return vio("C07:att-panic", "lexer panicked: %s%s", lr.Panic, ctxs)
 	}
